@@ -35,6 +35,43 @@ def repo_src():
     src = os.path.join(REPO, 'src')
     if src not in sys.path:
         sys.path.insert(0, src)
+    _start_line_coverage()
+
+
+_cov_state = {}
+
+
+def _start_line_coverage():
+    """Development aid (VERIF_COV=<directory>): records which lines of /repo/src/ssh_audit the check executes (sys.monitoring, Python 3.12), one
+    JSON file per process; `harness/covreport.py` merges them and lists the executable lines no check reaches — the blind spots of the generators."""
+    d = os.environ.get('VERIF_COV')
+    if not d or _cov_state or not hasattr(sys, 'monitoring'):
+        return
+    import atexit
+    mon = sys.monitoring
+    tool = mon.COVERAGE_ID
+    try:
+        mon.use_tool_id(tool, 'verifcov')
+    except ValueError:
+        return
+    seen = set()
+    _cov_state['seen'] = seen
+
+    def on_line(code, line):
+        fn = code.co_filename
+        if '/ssh_audit/' in fn:
+            seen.add((fn, line))
+        return mon.DISABLE
+    mon.register_callback(tool, mon.events.LINE, on_line)
+    mon.set_events(tool, mon.events.LINE)
+
+    def dump():
+        os.makedirs(d, exist_ok=True)
+        by = {}
+        for fn, ln in seen:
+            by.setdefault(os.path.basename(fn), []).append(ln)
+        json.dump({k: sorted(v) for k, v in by.items()}, open(os.path.join(d, 'cov-%d.json' % os.getpid()), 'w'))
+    atexit.register(dump)
 
 
 # ---------------------------------------------------------------- change-aware budgets
